@@ -127,3 +127,102 @@ func forcedJoin(r *vk.Run) {
 	}
 	r.Require("forced-join-scenarios", 100)
 }
+
+// forcedJoinDuringSend: a subscriber joins while the writer is in the middle of publishing (parked after taking the
+// bus's listener snapshot) and while an earlier subscriber has been cancelled but not yet collected by the bus.
+// Whatever bookkeeping the bus does when that publish finishes, the new subscriber must receive the NEXT write's
+// event exactly once (checked by world.write against every open subscriber, the witness included).
+func forcedJoinDuringSend(r *vk.Run) {
+	sched := vk.NewSched()
+	defer sched.Close()
+	idx := 0
+	for _, isVal := range []bool{true, false} {
+		for _, uo := range []bool{true, false} {
+			if !isVal && !uo {
+				continue // a seeded Collection subscriber waits for its turn in the publish order: it cannot join mid-publish
+			}
+			for _, mask := range masks[:3] {
+				for rep := 0; rep < 2; rep++ {
+					idx++
+					if !r.Mine(idx) {
+						continue
+					}
+					init := inits(isVal)[1]
+					w := newWorld(r, isVal, false, init)
+					w.trace = append(w.trace, fmt.Sprintf("forced join during send: isValue=%v init=%s", isVal, w.state.Render()))
+					first, second := sm.Op{Kind: sm.Set, Val: val(11, "one")}, sm.Op{Kind: sm.Set, Val: val(12, "two")}
+					if !isVal {
+						first = sm.Op{Kind: sm.Update, ID: "a", Val: val(11, "one")}
+						second = sm.Op{Kind: sm.Update, ID: "a", Val: val(12, "two")}
+					}
+					if !w.open(subSpec{UpdatesOnly: true, Mask: mask, OpenAt: -2}) { // the witness
+						w.close()
+						continue
+					}
+					gone := w.subscribe(subSpec{UpdatesOnly: true, OpenAt: -1})
+					if _, ok := r.MustQuiesce("c04-send-join-open"); !ok {
+						w.close()
+						return
+					}
+					gone.cancel()
+					// the cancelled subscriber is no longer judged
+					w.smu.Lock()
+					w.subs = w.subs[:1]
+					w.smu.Unlock()
+					if _, ok := r.MustQuiesce("c04-send-join-cancel"); !ok {
+						w.close()
+						return
+					}
+					park := sched.ParkAt("bus.send.afterSnapshot", nil)
+					before := w.state
+					var res sm.Result
+					tw := vk.Go(func() {
+						if isVal {
+							res = w.model.ExecValue(w.val, first)
+						} else {
+							res = w.model.ExecCollection(w.col, first)
+						}
+					})
+					vk.Quiesce()
+					reached := park.Arrived()
+					joiner := subSpec{UpdatesOnly: uo, Mask: mask, OpenAt: 0}
+					tj := vk.Go(func() { w.subscribe(joiner) })
+					vk.Quiesce()
+					park.Release()
+					tw.Wait()
+					tj.Wait()
+					if _, ok := r.MustQuiesce("c04-send-join"); !ok {
+						w.close()
+						return
+					}
+					r.Eval(1)
+					r.Count("forced-join-during-send-scenarios", 1)
+					if reached {
+						r.Distinct(fmt.Sprintf("sendjoin|%v|%v|%v", isVal, uo, mask))
+					} else {
+						r.Count("forced-window-not-reached", 1)
+					}
+					v, next := w.model.Apply(before, first, res)
+					if v.OK && len(w.subs) == 2 {
+						w.state = next
+						w.trace = append(w.trace, fmt.Sprintf("%v -> %v (a subscriber joined while this write was publishing)", first, res.Code))
+						// what each subscriber saw of the first write (the joiner: its seed, or the event, or nothing) is the
+						// subject of forcedJoin; here it only has to be consumed and remembered as the value it holds
+						for _, s := range w.subs {
+							for _, e := range s.take() {
+								s.last, s.held = e.new, true
+							}
+						}
+						w.trace = append(w.trace, "second write, after the publish finished")
+						w.write(second)
+					}
+					if r.WantSample("forced-join-during-send") {
+						r.Sample("forced-join-during-send", w.trace)
+					}
+					w.close()
+				}
+			}
+		}
+	}
+	r.Require("forced-join-during-send-scenarios", 10)
+}
